@@ -100,10 +100,9 @@ func (o *fieldOptions) toOptionsWithContext(key string, m Valuer, fullName strin
 		return &o.fieldOptionsWithContext, nil
 	}
 
-	return &fieldOptionsWithContext{
-		FromString: o.FromString,
-		Optional:   optional,
-		Options:    o.Options,
-		Default:    o.Default,
-	}, nil
+	// 只有 Optional 随上下文变化，其余选项（Range、EnvVar、Inherit 等）原样保留
+	opts := o.fieldOptionsWithContext
+	opts.Optional = optional
+
+	return &opts, nil
 }
